@@ -173,7 +173,8 @@ def fmt_exchange(x):
     else:
         head = x.outcome
     calls = ','.join(('r%d:%s' % (n, enc(d))) if k == 'r' else ('l:' + enc(d)) for k, n, d in x.calls) or '~'
-    return '%s | %d %s | %s | %s' % (head, x.consumed, 'T' if x.closed else 'F', enc(b''.join(x.notified)), calls)
+    consumed = '-' if x.outcome == 'exc' else '%d' % x.consumed
+    return '%s | %s %s | %s | %s' % (head, consumed, 'T' if x.closed else 'F', enc(b''.join(x.notified)), calls)
 
 
 def enc_segs_keep(segs):
@@ -526,10 +527,17 @@ class ReactiveServer:
     def on_write(self, conn, data):
         self.buf += data
         while b'\r\n\r\n' in self.buf:
-            head, _, self.buf = self.buf.partition(b'\r\n\r\n')
+            head, _, rest = self.buf.partition(b'\r\n\r\n')
+            n = 0
+            for line in head.split(b'\r\n')[1:]:
+                if line.lower().startswith(b'content-length:'):
+                    n = int(line.split(b':', 1)[1])
+            if len(rest) < n:
+                return          # request body still arriving
+            self.buf = rest[n:]
             sh = self.shared
             k = len(sh['requests'])
-            sh['requests'].append((sh['net'].conns.index(conn), head + b'\r\n\r\n'))
+            sh['requests'].append((sh['net'].conns.index(conn), head + b'\r\n\r\n' + rest[:n]))
             if k < len(sh['script']):
                 segs, eof = sh['script'][k]
                 t = asyncio.ensure_future(conn.send_segments(segs, eof=eof))
@@ -599,6 +607,9 @@ def real_session_sequence(exchanges, recorder_params=None, keep_alive=True):
                                       version=e.get('version', 'HTTP/1.1'))
                     for n, v in e.get('req_fields', ()):
                         request.fields.add(n, v)
+                    if e.get('req_body') is not None:
+                        request.body = io.BytesIO(e['req_body'])
+                        request.fields['Content-Length'] = str(len(e['req_body']))
                     out = io.BytesIO()
                     x = Exchange()
                     x.status = x.fields = x.body = x.exc = None
